@@ -23,6 +23,7 @@ type oracle struct {
 	results []string // names of oracle parameters bound to the call's results
 	effect  string   // constructor of Gen.Eff recorded when the call is made ("" = none)
 	errOf   bool     // results are (pointer, error) and exactly one of them is nil
+	okOf    bool     // results are (pointer, ok) and ok is true exactly when the pointer is non-nil
 	args    []int    // which arguments the recorded effect captures (nil = all)
 }
 
@@ -55,6 +56,31 @@ func (f *fnSpec) isState(r string) bool {
 }
 
 var specs = []fnSpec{
+	{
+		file: "server/server.go", goName: "doModify", callAs: "s.doModify", leanName: "doModify", errChan: true,
+		params: []param{
+			{goName: "cid", goType: "string", lean: "cid", kd: kStr},
+			{goName: "ops", goType: "[]*spb.AFTOperation", lean: "ops", kd: kind{k: "list", s: "AFTOperation", elemNN: true}},
+			{goName: "resCh", goType: "chan *spb.ModifyResponse", lean: "resCh", kd: kStr, skip: true},
+			{goName: "errCh", goType: "chan error", lean: "errCh", kd: kStr, skip: true},
+		},
+		goRets: "", rets: []string{},
+		oracleParams: []param{
+			{goName: "§cs", lean: "cs", kd: kPtr("clientState")},
+			{goName: "§csOk", lean: "csOk", kd: kBool},
+			{goName: "§elec", lean: "elec", kd: kPtr("electionDetails"), nonnil: true},
+			{goName: "§niKnown", lean: "niKnown", kd: kind{k: "fun", t: []kind{kBool, kStr}}},
+			{goName: "§meRes", lean: "meRes", kd: kind{k: "fun", t: []kind{kind{k: "mresp"}, kPtr("AFTOperation")}}},
+			{goName: "§meErr", lean: "meErr", kd: kind{k: "fun", t: []kind{kind{k: "status"}, kPtr("AFTOperation")}}},
+		},
+		oracles: map[string]oracle{
+			"s.getClientState":               {results: []string{"§cs", "§csOk"}, okOf: true},
+			"s.getElection":                  {results: []string{"§elec"}},
+			"s.masterRIB.NetworkInstanceRIB": {results: []string{"$0", "§niKnown@0"}},
+			"modifyEntry":                    {results: []string{"§meRes@2", "§meErr@2"}, effect: "modifyEntry", args: []int{1, 2, 3, 4}},
+		},
+		effects: true,
+	},
 	{
 		file: "server/server.go", goName: "doGet", callAs: "s.doGet", leanName: "doGet", errChan: true,
 		params: []param{
